@@ -312,7 +312,8 @@ def zero_is_a_value_rule(index, rep, rid, modules, exempt=None):
                     defaults.update({k.arg: v for k, v in zip(a_.kwonlyargs, a_.kw_defaults) if v is not None})
                 numeric = (isinstance(d, ast.Constant) and isinstance(d.value, (int, float)) and not isinstance(d.value, bool)) or (isinstance(x, ast.Name) and x.id in nn) or (isinstance(x, ast.Attribute) and x.attr in NUMERIC_ATTRS)
                 tri = isinstance(x, ast.Name) and x.id in defaults and is_none(defaults[x.id]) and isinstance(d, ast.Attribute) and d.attr.lstrip("_") == x.id.lstrip("_")
-                if isinstance(x, ast.Subscript) and not numeric and not (isinstance(x.value, ast.Name) and x.value.id in ("kwargs", "kwds", "environ")):
+                if isinstance(x, ast.Subscript) and not numeric and not (isinstance(x.value, ast.Name) and x.value.id in ("kwargs", "kwds", "environ")) \
+                        and not (isinstance(d, ast.Constant) and isinstance(d.value, str)):     # `names[i] or "unnamed"`: the elements are text
                     rep.check(False, rid, fi.qualname, "`%s` replaces a stored 0" % _canon_names(norm(b), fi), fn_where(fi, b), "",
                               "%s computes `%s`: the left side is an element read out of a container, and `or` replaces every falsy element - a stored 0 / 0.0 (a zero distance, the zero diagonal of a distance table, a zero count) is written or passed on as the 'missing' value instead" % (fi.qualname, norm(b)[:70]))
                 xl = x.id if isinstance(x, ast.Name) else (x.attr.lstrip("_") if isinstance(x, ast.Attribute) else None)
@@ -1745,7 +1746,15 @@ def leaked_loop_value_rule(index, rep, rid, modules):
             found = []
             for l1 in loops:
                 inner = {id(x) for x in ast.walk(l1)}
-                per_iter = stores(l1) - {x.id for x in allst if id(x) not in inner} - set(f.all_params)
+                # what one pass leaves for the next: the loop's own target, and names the body binds unconditionally
+                # (directly in the body) - a name bound under a test inside the loop is a search result that is MEANT
+                # to outlive the loop
+                direct = {x.id for x in ast.walk(l1.target) if isinstance(x, ast.Name)} if isinstance(l1, ast.For) else set()
+                for st in l1.body:
+                    if isinstance(st, (ast.Assign, ast.AnnAssign, ast.AugAssign)):
+                        for t in (st.targets if isinstance(st, ast.Assign) else [st.target]):
+                            direct |= {x.id for x in ast.walk(t) if isinstance(x, ast.Name) and isinstance(x.ctx, ast.Store)}
+                per_iter = (stores(l1) & direct) - {x.id for x in allst if id(x) not in inner} - set(f.all_params)
                 if not per_iter:
                     continue
                 for l2 in loops:
